@@ -5,9 +5,9 @@ from . import gen
 from .gen import Field, Schema
 from .hist import Lifetimes, must_ok
 
-RULE = ("history = schema with int/float/string/datetime/nullable sort fields x 15-40 events with duplicate and missing keys x config "
+RULE = ("history = schema with int/float/string/datetime/nullable sort fields x 15-50 events with duplicate and missing keys x config "
         "(shards 1..5, zone sizes 1..4) with a scripted clock giving distinct core timestamps; ~45 queries ORDER BY f [DESC] LIMIT n OFFSET m "
-        "(n,m in {0,1,2,|R|-1,|R|,|R|+3,1000}) with optional WHERE/FOR, per tier mem/mixed/flush/c1/restart; oracle = python sort of the "
+        "(n,m in {0,1,2,|R|-1,|R|,|R|+3,1000}, plus deep pages m >= 10n) with optional WHERE/FOR, per tier mem/mixed/flush/c1/restart; oracle = python sort of the "
         "engine's own unordered unlimited selection on the same state; distinct_nontrivial counts distinct (sort kind, direction, "
         "limit class, offset class, scope, tier) combinations whose selection has >=3 rows")
 
@@ -17,7 +17,7 @@ def make_history(rng):
               Field("o", "int", optional=True), Field("u", "u64"), Field("n", "int")]
     schema = Schema("ev", fields)
     ctxs = [f"c{j}" for j in range(rng.randint(2, 6))]
-    n = rng.randint(15, 40)
+    n = rng.randint(15, 50)
     events = []
     for i in range(n):
         p = {"k": i, "a": rng.choice([-3, 0, 1, 1, 2, 7, 7, 100, -100]), "f": rng.choice([-1.5, 0.0, 0.25, 2.0, 2.5, 10.0, 1e6]),
@@ -39,6 +39,15 @@ def make_history(rng):
 
 def gen_query(rng, ctxs, nrows):
     q = {"order": None, "desc": False, "limit": None, "offset": None, "where": None, "for": None}
+    if rng.random() < 0.15:
+        # deep page: OFFSET of at least ten times LIMIT (the top-k pre-selection budgets for ten times LIMIT+OFFSET rows)
+        q["order"] = rng.choice(["k", "timestamp", "n", "a", "t", "u"])
+        q["desc"] = rng.random() < 0.75
+        q["limit"] = rng.choice([1, 1, 2, 3])
+        q["offset"] = rng.randint(10 * q["limit"], max(10 * q["limit"], nrows - 1))
+        if rng.random() < 0.15:
+            q["where"] = rng.choice(["a > 0", "a <= 7", "k < 20"])
+        return q
     r = rng.random()
     if r < 0.8:
         q["order"] = rng.choice(["a", "f", "s", "t", "o", "u", "k", "timestamp", "n", "n"])
@@ -121,10 +130,11 @@ def history_task(task, wdir, res):
             res.evaluations += 1
             sk = sort_kind(q["order"])
             sig = {"sort": sk, "desc": q["desc"], "limit": size_class(q["limit"], len(R)), "offset": size_class(q["offset"], len(R)),
-                   "where": bool(q["where"]), "for": bool(q["for"]), "tier": tier}
+                   "where": bool(q["where"]), "for": bool(q["for"]), "tier": tier,
+                   "deep_page": bool(q["limit"] and q["offset"] is not None and q["offset"] >= 10 * q["limit"])}
             w = dict(witness, query=text, tier=tier)
             if len(R) >= 3:
-                res.nontrivial((sk, q["desc"], sig["limit"], sig["offset"], bool(q["where"]) or bool(q["for"]), tier))
+                res.nontrivial((sk, q["desc"], sig["limit"], sig["offset"], sig["deep_page"], bool(q["where"]) or bool(q["for"]), tier))
             if rep.kind == "panic":
                 res.violation("query_panicked", sig, f"{text}: {rep.message}", w)
                 continue
@@ -195,7 +205,7 @@ def history_task(task, wdir, res):
 
 
 def run(run):
-    n = 16 if run.tier == "quick" else 300
+    n = 16 if run.tier == "quick" else 1200
     nq = 45 if run.tier == "quick" else 70
     tasks = [{"name": f"h{i}", "seed": run.rng("hist", i).getrandbits(48), "nq": nq} for i in range(n)]
     run.min_distinct = 60
